@@ -68,6 +68,7 @@ class ServeTask(Task):
         me.attrs["_sent_release"] = I.input("bool", "_sent_release")
         dimse = Env("assoc.dimse")
         me.attrs["dimse"] = dimse
+        dimse.attrs["cancel_req"] = AbsMap(I, "cancel_req")       # pending C-CANCELs received so far: any content
         acceptor = Env("assoc.acceptor")
         acceptor.attrs["accepted_common_extended"] = AbsMap(I, "accepted_common_extended", lambda I_, k: (Env("service_class_uid"), Env("x")))
         me.attrs["acceptor"] = acceptor
@@ -87,6 +88,10 @@ class ServeTask(Task):
         aborts = [e for e in tr if e.name == "abort"]
         sends = [e for e in tr if e.name == "send_msg"]
         I.ob(f"C19/{SERVE}/no-exception-escapes", kind == "return", detail=f"{kind}:{val!r}")
+        # C20 (composition): every DIMSE response to a request comes from the service class the request was handed to -
+        # the dispatch itself sends none, hands the request over at most once, and passes on the request's own context
+        I.ob(f"C20/{SERVE}/the-dispatch-itself-sends-no-DIMSE-response", not sends)
+        I.ob(f"C20/{SERVE}/a-request-is-handed-to-a-service-class-at-most-once", len(scp) <= 1)
         ent = next((e for e in acc.q if I.valid(I.eq(e[0], cid)) is True or (not isinstance(I.eq(e[0], cid), bool) and I.valid(I.eq(e[0], cid)))), None)
         if scp:
             I.ob(f"C19/{SERVE}/handler-dispatch-only-for-an-accepted-context-id", ent is not None and I.valid(ent[1] if not isinstance(ent[1], bool) else z3.BoolVal(ent[1])))
@@ -97,10 +102,11 @@ class ServeTask(Task):
             i = tr.index(scp[0])
             before = [e for e in tr[:i] if e.name == "setattr" and e.args[0] == "assoc.dimse" and e.args[1] == "cancel_req"]
             I.ob(f"C23/{SERVE}/pending-cancels-are-dropped-before-the-operation-starts",
-                 bool(before) and before[-1].args[2] == {} and all(e.name in ("setattr",) for e in tr[tr.index(before[-1]):i]))
+                 bool(before) and _is_empty_map(I, before[-1].args[2]) and all(e.name in ("setattr",) for e in tr[tr.index(before[-1]):i]),
+                 detail=repr(before[-1].args[2]) if before else "cancel_req is not reset")
             if g.get("scp_outcome") == 0:
                 after = [e for e in tr[i:] if e.name == "setattr" and e.args[0] == "assoc.dimse" and e.args[1] == "cancel_req"]
-                I.ob(f"C23/{SERVE}/pending-cancels-are-dropped-when-the-operation-ends", bool(after) and after[-1].args[2] == {})
+                I.ob(f"C23/{SERVE}/pending-cancels-are-dropped-when-the-operation-ends", bool(after) and _is_empty_map(I, after[-1].args[2]))
             else:
                 I.ob(f"C19/{SERVE}/a-failing-service-class-aborts-the-association", len(aborts) == 1)
         else:
@@ -112,6 +118,16 @@ class ServeTask(Task):
                      and len(aborts) == 1 and not sends)
             else:
                 I.ob(f"C19/{SERVE}/ignored-message:no-handler-no-answer", not sends and not aborts)
+
+
+def _is_empty_map(I, v):
+    """the value stored as the pending-cancel map holds no entry (for every content the old map may have had)"""
+    if isinstance(v, dict):
+        return len(v) == 0
+    if hasattr(v, "sym_len"):
+        n = v.sym_len(I)
+        return I.valid(I._num(n, "int") == 0)
+    return False
 
 
 class IsCancelledTask(Task):
